@@ -15,38 +15,47 @@ Record ast := mk_ast {
   a_loc : cdb;                      (* local data *)
   a_saved : option (cdb * cdb);     (* the copies taken by Begin *)
   a_skeys : list bytes; a_lkeys : list bytes;
-  a_dr : bool; a_dw : bool }.
+  a_dr : bool; a_dw : bool;
+  a_dirty : bool }.                 (* instrumentation only: a local write happened since the last
+                                       List / Begin / Commit (what the guard of the partial theorems
+                                       looks at); no operation's result depends on it *)
 
 Definition a_intx (a : ast) : bool := match a_saved a with Some _ => true | None => false end.
+
+(** List flushes: nothing is buffered afterwards *)
+Definition a_flush (a : ast) : ast :=
+  mk_ast (a_st a) (a_loc a) (a_saved a) (a_skeys a) (a_lkeys a) (a_dr a) (a_dw a) false.
 
 Definition abs : backend ast := {|
   b_sget := fun a k => (a, norm (get k (a_st a)));
   b_sset := fun a k v =>
     mk_ast (put k v (a_st a)) (a_loc a) (a_saved a)
-           (if a_intx a then a_skeys a ++ [k] else a_skeys a) (a_lkeys a) (a_dr a) (a_dw a);
+           (if a_intx a then a_skeys a ++ [k] else a_skeys a) (a_lkeys a) (a_dr a) (a_dw a) (a_dirty a);
   b_skeys := a_skeys;
   b_lget := fun a k => (a, if a_dr a then ODis else OV (norm (get k (a_loc a))));
   b_lset := fun a k v =>
     if a_dw a then (a, false)
     else (mk_ast (a_st a) (put k v (a_loc a)) (a_saved a) (a_skeys a)
-                 (if a_intx a then a_lkeys a ++ [k] else a_lkeys a) (a_dr a) (a_dw a), true);
-  b_llist := fun a p => (a, if a_dr a then ODis else OL (list_of (a_loc a) p));
+                 (if a_intx a then a_lkeys a ++ [k] else a_lkeys a) (a_dr a) (a_dw a) true, true);
+  b_llist := fun a p =>
+    if a_dr a then (a, ODis)
+    else (a_flush a, OL (list_of (a_loc a) p));
   b_lkeys := a_lkeys;
-  b_begin := fun a => mk_ast (a_st a) (a_loc a) (Some (a_st a, a_loc a)) [] [] (a_dr a) (a_dw a);
-  b_commit := fun a => mk_ast (a_st a) (a_loc a) None [] [] (a_dr a) (a_dw a);
+  b_begin := fun a => mk_ast (a_st a) (a_loc a) (Some (a_st a, a_loc a)) [] [] (a_dr a) (a_dw a) false;
+  b_commit := fun a => mk_ast (a_st a) (a_loc a) None [] [] (a_dr a) (a_dw a) false;
   b_rollback := fun a =>
     match a_saved a with
-    | Some (st, loc) => mk_ast st loc None [] [] (a_dr a) (a_dw a)
-    | None => mk_ast (a_st a) (a_loc a) None [] [] (a_dr a) (a_dw a)
+    | Some (st, loc) => mk_ast st loc None [] [] (a_dr a) (a_dw a) false
+    | None => mk_ast (a_st a) (a_loc a) None [] [] (a_dr a) (a_dw a) false
     end;
-  b_starttx := fun a => mk_ast (a_st a) (a_loc a) (a_saved a) [] [] (a_dr a) (a_dw a);
+  b_starttx := fun a => mk_ast (a_st a) (a_loc a) (a_saved a) [] [] (a_dr a) (a_dw a) (a_dirty a);
   b_enter := fun a st =>
-    mk_ast (a_st a) (a_loc a) (a_saved a) (a_skeys a) (a_lkeys a) (if st then a_dr a else true) true;
+    mk_ast (a_st a) (a_loc a) (a_saved a) (a_skeys a) (a_lkeys a) (if st then a_dr a else true) true (a_dirty a);
   b_leave := fun a st =>
-    mk_ast (a_st a) (a_loc a) (a_saved a) (a_skeys a) (a_lkeys a) (if st then a_dr a else false) false;
-  b_rb_ok := fun _ => true |}.
+    mk_ast (a_st a) (a_loc a) (a_saved a) (a_skeys a) (a_lkeys a) (if st then a_dr a else false) false (a_dirty a);
+  b_rb_ok := fun a => negb (a_dirty a) |}.
 
-Definition abs_init (store main : cdb) : ast := mk_ast store main None [] [] false false.
+Definition abs_init (store main : cdb) : ast := mk_ast store main None [] [] false false false.
 
 Definition run_spec (store main : cdb) (blk : list item) : list (list obs) * list receipt :=
   let '(_, trs, rcs, _) := exec_block abs (abs_init store main) blk in (trs, rcs).
